@@ -1,17 +1,35 @@
 import MtxVerif.Model.C40
+import MtxVerif.Gen.C40
 open MtxVerif MtxVerif.C40
 
-/-- One op = one stress run of the real loops.  The model's answer is always `done` (the theorems say
-every operation, including shutdown, completes); the spec fails exactly when the watchdog fired. -/
+/-- is `Type.method:line` a blocking site of the generated table? -/
+def knownSite (s : String) : Bool :=
+  match s.splitOn ":" with
+  | [f, l] =>
+    match l.toNat? with
+    | some n => Gen.C40.ops.any fun o => Gen.C40.fnNames.getD o.fn "" == f && (o.site == n || o.line == n)
+    | none => false
+  | _ => false
+
+/-- One op = one stress run of the real loops.  The model's answer is `done` (the theorems say every
+operation, including shutdown, completes) followed by the sampled blocking sites that the extracted
+table knows: a goroutine parked at a channel operation of internal/core that is NOT in the table
+makes model and implementation differ (the model's waits do not cover the code).  The spec fails
+exactly when the watchdog fired. -/
 def step (_ : Unit) (op impl : String) : Unit × DrvOut :=
   match words op with
   | "stress" :: _ =>
-    let v :=
-      if impl == "done" then "ok"
-      else if impl.startsWith "hang" then
-        "FAIL operations did not complete; goroutines blocked in " ++ (impl.drop 5).toString
-      else "FAIL unparsable implementation answer"
-    ((), { model := "done", spec := v })
+    if impl == "skipped" then ((), { model := "-" })
+    else if impl.startsWith "hang" then
+      ((), { model := "done", spec := "FAIL operations did not complete; goroutines blocked in " ++ (impl.drop 5).toString })
+    else
+      match words impl with
+      | ["done", s] =>
+        let sites := if s == "sites=-" then [] else ((s.drop 6).toString.splitOn ",")
+        let known := sites.filter knownSite
+        let m := if known.isEmpty then "done sites=-" else "done sites=" ++ ",".intercalate known
+        ((), { model := m })
+      | _ => ((), { model := "done sites=-", spec := "FAIL unparsable implementation answer" })
   | _ => ((), { model := "bad-op" })
 
 def main (args : List String) : IO UInt32 := runDriver args () step
